@@ -4,6 +4,7 @@ import (
 	"fmt"
 	"go/token"
 	"go/types"
+	"gverif/internal/load"
 
 	"golang.org/x/tools/go/ssa"
 )
@@ -49,28 +50,76 @@ func c13Families(e *Env, rule string) {
 		}
 		return walk(v)
 	}
+	// helpers of the package called directly with the getter: `validateGetterPrefix(*s.Getter)`
+	type helperUse struct {
+		g    *ssa.Function
+		call ssa.CallInstruction
+		prm  *ssa.Parameter
+	}
+	var helpers []helperUse
+	for _, c := range callsIn(fn, false) {
+		g := c.Common().StaticCallee()
+		if g == nil || g.Pkg != fn.Pkg || len(g.Blocks) == 0 {
+			continue
+		}
+		for i, a := range c.Common().Args {
+			if fromGetter(a) && i < len(g.Params) {
+				helpers = append(helpers, helperUse{g, c, g.Params[i]})
+			}
+		}
+	}
+	retTainted := func(f *ssa.Function, v ssa.Value) bool {
+		ts := taintFrom(f, v)
+		for _, b := range f.Blocks {
+			if b == f.Recover {
+				continue
+			}
+			if ret, ok := b.Instrs[len(b.Instrs)-1].(*ssa.Return); ok {
+				for _, rv := range ret.Results {
+					if ts.has(rv) {
+						return true
+					}
+				}
+			}
+		}
+		return false
+	}
 	for _, w := range []struct{ callee, lit, what string }{
 		{"strings.HasPrefix", "Must", "must-prefix"},
 		{"strings.HasSuffix", "InContext", "context-suffix"},
 	} {
 		k := key + "#" + w.what
-		var found *ssa.If
-		for _, b := range fn.Blocks {
-			iff, ok := b.Instrs[len(b.Instrs)-1].(*ssa.If)
-			if !ok {
-				continue
+		find := func(f *ssa.Function, isGetter func(ssa.Value) bool) *ssa.If {
+			var found *ssa.If
+			for _, b := range f.Blocks {
+				iff, ok := b.Instrs[len(b.Instrs)-1].(*ssa.If)
+				if !ok {
+					continue
+				}
+				call, ok := iff.Cond.(*ssa.Call)
+				if !ok || callName(call.Common()) != w.callee || len(call.Call.Args) != 2 {
+					continue
+				}
+				if s, ok := constString(call.Call.Args[1]); !ok || s != w.lit {
+					continue
+				}
+				if !isGetter(call.Call.Args[0]) {
+					continue
+				}
+				found = iff
 			}
-			call, ok := iff.Cond.(*ssa.Call)
-			if !ok || callName(call.Common()) != w.callee || len(call.Call.Args) != 2 {
-				continue
+			return found
+		}
+		host := fn
+		var via *helperUse
+		found := find(fn, fromGetter)
+		if found == nil {
+			for i := range helpers {
+				h := helpers[i]
+				if f := find(h.g, func(v ssa.Value) bool { return v == ssa.Value(h.prm) }); f != nil {
+					found, host, via = f, h.g, &helpers[i]
+				}
 			}
-			if s, ok := constString(call.Call.Args[1]); !ok || s != w.lit {
-				continue
-			}
-			if !fromGetter(call.Call.Args[0]) {
-				continue
-			}
-			found = iff
 		}
 		if found == nil {
 			r.Violate(rule, k, fmt.Sprintf("no branch on %s(getter, %q): a getter of that shape is accepted and its generated methods can coincide with another service's", w.callee, w.lit), nil)
@@ -88,47 +137,49 @@ func c13Families(e *Env, rule string) {
 			r.Violate(rule, k, fmt.Sprintf("the %s test does not lead directly to the rejection: a further condition narrows it, so some getters with the %s are accepted", w.what, w.what), nil, e.P.Pos(found.Cond.Pos()))
 			continue
 		}
-		ts := taintFrom(fn, errv)
-		reachesRet := false
-		for _, b := range fn.Blocks {
-			if ret, ok := b.Instrs[len(b.Instrs)-1].(*ssa.Return); ok {
-				for _, rv := range ret.Results {
-					if ts.has(rv) {
-						reachesRet = true
-					}
-				}
-			}
+		reaches := retTainted(host, errv)
+		if reaches && via != nil {
+			// the helper's result must reach the validator's result
+			reaches = via.call.Value() != nil && retTainted(fn, via.call.Value())
 		}
-		if !reachesRet {
+		if !reaches {
 			r.Violate(rule, k, "the rejection error does not reach the validator's result", nil, e.P.Pos(errv.Pos()))
 			continue
 		}
-		// every condition dominating the test is the nil test of the getter or the reserved-name lookup
-		okDom := true
-		why := ""
-		for d := found.Block().Idom(); d != nil; d = d.Idom() {
-			iff, ok := d.Instrs[len(d.Instrs)-1].(*ssa.If)
-			if !ok {
-				continue
+		okDom, why := true, ""
+		if via != nil {
+			// inside the helper the test is unconditional; in the validator the helper's call takes the test's place
+			if found.Block() != host.Blocks[0] && found.Block().Idom() != nil {
+				for d := found.Block().Idom(); d != nil; d = d.Idom() {
+					if _, isIf := d.Instrs[len(d.Instrs)-1].(*ssa.If); isIf {
+						okDom, why = false, "the helper tests something else first"
+					}
+				}
 			}
-			if v, _, isNil := nilTest(iff.Cond); isNil && fromGetter(v) {
-				continue
+			if okDom {
+				okDom, why = passesOrEarly(fn, via.call.Block(), fromGetter)
 			}
-			if isReservedLookup(iff.Cond) {
-				continue
+		} else {
+			for d := found.Block().Idom(); d != nil; d = d.Idom() {
+				iff, ok := d.Instrs[len(d.Instrs)-1].(*ssa.If)
+				if !ok {
+					continue
+				}
+				if v, _, isNil := nilTest(iff.Cond); isNil && fromGetter(v) {
+					continue
+				}
+				if isReservedLookup(iff.Cond) {
+					continue
+				}
+				if c, ok := iff.Cond.(*ssa.Call); ok && (callName(c.Common()) == "strings.HasPrefix" || callName(c.Common()) == "strings.HasSuffix") {
+					continue
+				}
+				okDom = false
+				why = e.P.Pos(iff.Cond.Pos())
 			}
-			// an earlier prefix/suffix test (the sibling check) is fine
-			if c, ok := iff.Cond.(*ssa.Call); ok && (callName(c.Common()) == "strings.HasPrefix" || callName(c.Common()) == "strings.HasSuffix") {
-				continue
+			if okDom {
+				okDom, why = passesOrEarly(fn, found.Block(), fromGetter)
 			}
-			okDom = false
-			why = e.P.Pos(iff.Cond.Pos())
-		}
-		// and no return is possible before the test except under those conditions: the test block must
-		// post-dominate... decided through: every path from the entry to a return passes the test block or
-		// leaves through a nil/reserved branch.
-		if okDom {
-			okDom, why = passesOrEarly(fn, found.Block(), fromGetter)
 		}
 		r.Check(okDom, rule, k, fmt.Sprintf("every non-nil, non-reserved getter reaches the %s test, whose true edge creates the error that reaches the result %s", w.what, why), e.P.Pos(found.Cond.Pos()))
 	}
@@ -139,7 +190,7 @@ func fieldNameT(t types.Type, i int) string {
 		t = p.Elem()
 	}
 	if s, ok := t.Underlying().(*types.Struct); ok && i < s.NumFields() {
-		return s.Field(i).Name()
+		return load.Current.BaselineField(t, s.Field(i).Name())
 	}
 	return ""
 }
